@@ -9,7 +9,11 @@
              operation the dump is the dump of one of the permitted list outcomes, a
              fresh parse of the dump shows exactly that outcome's non-empty paragraphs
              field by field (name and exact text), and (name, i) is the i-th field of
-             that name in document order. *)
+             that name in document order.  For sort_fields(key=...) the one permitted
+             outcome is the STABLE sort of the list by that key ([sort_fields_by]: fields
+             whose keys tie keep their relative order, so the occurrences of a repeated
+             field stay interleaved with the fields of other names that tie with them);
+             the driver passes the Python function the constructor stands for. *)
 From Coq Require Import String.
 From Verif Require Import Lib.Base Lib.Dec Lib.PyStr Gen.PyChars
   Repro.Doc Repro.StructSort Repro.Struct Repro.StructSpec.
@@ -29,7 +33,7 @@ Inductive oplit :=
 | LLast (j : nat) (k : klit)
 | LBefore (j : nat) (k r : klit)
 | LAfter (j : nat) (k r : klit)
-| LSort (j : nat)
+| LSort (j : nat) (sk : sortkey)                             (* sort_fields(key=...), the family of Repro/StructSort.v *)
 | LSet (j : nat) (k : klit) (v : string)
 | LDel (j : nat) (k : klit)
 | LAppend (kvs : list (string * string))
@@ -75,7 +79,7 @@ Definition dec_op (o : oplit) : sop :=
   | LLast j k => SLast j (dec_key k)
   | LBefore j k r => SBefore j (dec_key k) (dec_key r)
   | LAfter j k r => SAfter j (dec_key k) (dec_key r)
-  | LSort j => SSort j
+  | LSort j sk => SSort j sk
   | LSet j k v => SSet j (dec_key k) (dec v)
   | LDel j k => SDel j (dec_key k)
   | LAppend kvs => SAppend (dec_kvs kvs)
@@ -194,7 +198,7 @@ Definition spec_op (s : sdoc) (o : sop) : option dop :=
   | SLast j k => Some (DPara j (PLast k))
   | SBefore j k r => Some (DPara j (PBefore k r))
   | SAfter j k r => Some (DPara j (PAfter k r))
-  | SSort j => Some (DPara j PSort)
+  | SSort j sk => Some (DPara j (PSort sk))
   | SSet j k v =>
       match split_para s j with
       | Some (_, fs, _) => option_map (DPara j) (set_pop k v fs)
@@ -213,7 +217,7 @@ Definition op_ascii (o : sop) : bool :=
   | SFirst _ k | SLast _ k | SDel _ k | SSet _ k _ => is_ascii_key k
   | SBefore _ k r | SAfter _ k r => is_ascii_key k && is_ascii_key r
   | SAppend kvs | SInsert _ kvs => forallb (fun kv => is_ascii (fst kv)) kvs
-  | SSort _ | SReappend _ => true
+  | SSort _ _ | SReappend _ => true
   end.
 
 Fixpoint holds_steps (s : sdoc) (ops : list sop) (steps : list steplit) : bool :=
